@@ -88,8 +88,8 @@ func init() {
 	})
 	register(&propDef{
 		id:          "C15",
-		explanation: "Decides one structural clause: every value yielded by Permutations, LexicographicPermutations and MultisetPermutations is a rearrangement of the initial multiset, because every store into the iterators' state slices (PermutationIterator.p, LexicographicPermutationIterator.a) is an in-place permutation of cells (SWAP rule on typed syntax, cell distinctness for 3-cycles proved by E-PROVE), and no other module function writes those slices (E-EFF field-writer scan); MASKWIDTH (no iterator keeps per-element state in a one-bit mask whose shift count is not proved below the word size: Go yields 0 beyond it, so elements from 64 on would be ignored); MULOVF (no iterator forms an unbounded product of two non-constant integers, e.g. a precomputed number of remaining objects). Completeness, uniqueness and order of the thirteen iterators are value-level and not decided.",
-		notDecided:  []string{"that every object of each family is yielded exactly once, in the documented order, followed by stable exhaustion", "the predicate-driven iterators and TopologicalSorts (they shift, not swap)", "Partitions(1), boundary parameters"},
+		explanation: "Decides one structural clause: every value yielded by Permutations, LexicographicPermutations and MultisetPermutations is a rearrangement of the initial multiset, because every store into the iterators' state slices (PermutationIterator.p, LexicographicPermutationIterator.a) is an in-place permutation of cells (SWAP rule on typed syntax, cell distinctness for 3-cycles proved by E-PROVE), and no other module function writes those slices (E-EFF field-writer scan); MASKWIDTH (no iterator keeps per-element state in a one-bit mask whose shift count is not proved below the word size: Go yields 0 beyond it, so elements from 64 on would be ignored); MULOVF (no iterator forms an unbounded product of two non-constant integers, e.g. a precomputed number of remaining objects); STICKY ('and then reports exhaustion on every further call', per `return false` of every Next: either no instruction on any path to it may write the iterator - the call left the state alone, so the next one takes the same path - or every path to it stores a done mark, found in the code, that Next tests on entry before touching anything; three iterators whose exhaustion is stable by value rather than by shape are listed and not judged). Completeness, uniqueness and order of the thirteen iterators are value-level and not decided.",
+		notDecided:  []string{"that every object of each family is yielded exactly once, in the documented order", "stable exhaustion of Permutations, PermutationsByPattern and RestrictedPrefixProduct (by value, not by shape) and of returns whose value is computed", "the predicate-driven iterators and TopologicalSorts (they shift, not swap)", "Partitions(1), boundary parameters"},
 		assumptions: []string{"callers respect the documented 'do not modify the returned slice'"},
 		run: func(c *Ctx, tier string) []*RuleResult {
 			sw := ruleSwap(c, "SWAP", swapDoc, []swapSpec{
@@ -120,9 +120,17 @@ func init() {
 			// a precomputed count of objects (the product of the factors, say) overflows for inputs the
 			// odometer itself handles: no unbounded product of two variables
 			mo := ruleMulOvf(c, "itertools")
-			return []*RuleResult{sw, fw, rt, mw, mo}
+			sk := ruleSticky(c, "itertools", stickyByValue)
+			sk.MinInst = 10
+			return []*RuleResult{sw, fw, rt, mw, mo, sk}
 		},
-		controls: func(ctl *Ctx) []*RuleResult { return swapControls(ctl) },
+		controls: func(ctl *Ctx) []*RuleResult {
+			sk := ruleSticky(ctl, "stickctl", nil)
+			if len(sk.Findings) != 2 { // BadReset and BadMarkIgnored, nothing else
+				sk.undecided("STICKY controls: %d findings, want exactly the two Bad iterators", len(sk.Findings))
+			}
+			return append(swapControls(ctl), sk)
+		},
 	})
 }
 
